@@ -522,6 +522,20 @@ pub fn sc_twins_plus() -> Scenario
     s.goals = vec![None, Some("a".to_string()), Some("b".to_string())];
     s
 }
+pub fn sc_triplets() -> Scenario { scn("triplets", vec![cat_rule("a", &["s"]), cat_rule("b", &["s"]), cat_rule("c", &["s"])], &["s"]) }
+pub fn sc_twins_multi() -> Scenario
+{
+    // a two-target rule whose targets are byte-identical to each other and to an independent rule's target
+    scn("twinsmulti", vec![multi_rule(&["a1", "a2"], &["s"], &[&["s"], &["s"]]), cat_rule("b", &["s"]), cat_rule("d", &["a2", "b"])], &["s"])
+}
+pub fn sc_widefanin() -> Scenario
+{
+    scn("widefanin", vec![cat_rule("p", &["s"]), cat_rule("q", &["u"]), cat_rule("r", &["s", "u"]), cat_rule("top", &["p", "q", "r"])], &["s", "u"])
+}
+pub fn sc_five() -> Scenario
+{
+    scn("five", vec![cat_rule("app", &["core", "util"]), cat_rule("core", &["gen"]), cat_rule("gen", &["lex"]), cat_rule("lex", &["util"]), cat_rule("util", &["s"])], &["s"])
+}
 pub fn sc_twins3() -> Scenario { scn("twins3", vec![cat_rule("a", &["s"]), cat_rule("b", &["s"]), cat_rule("c", &["a", "b"])], &["s"]) }
 
 /// diamond + independent sibling, with rule `i` replaced by a failing / non-producing one
@@ -583,11 +597,24 @@ pub fn success_cases(tier: &str) -> Vec<SchedCase>
     // two rules wait for one cache entry while a third rule puts an identical file into the cache
     let tp = sc_twins_plus();
     v.push(mk("twins+backup/cleaned-a-b+edit-u/build", &tp, vec![b(None), c(Some("a")), c(Some("b")), e("u", 1)], b(None)));
+    v.push(mk("chain3/built+edit/build", &chain3, vec![b(None), e("s", 1)], b(None)));
+    let tri = sc_triplets();
+    v.push(mk("triplets/cleaned/build", &tri, vec![b(None), c(None)], b(None)));
+    v.push(mk("triplets/built/clean", &tri, vec![b(None)], c(None)));
+    let tm = sc_twins_multi();
+    v.push(mk("twinsmulti/cleaned/build", &tm, vec![b(None), c(None)], b(None)));
+    v.push(mk("twinsmulti/reverted/build", &tm, vec![b(None), e("s", 1), b(None), e("s", 0)], b(None)));
+    let wf = sc_widefanin();
+    v.push(mk("widefanin/built+edit/build", &wf, vec![b(None), e("u", 1)], b(None)));
+    v.push(mk("twins/partly-cleaned/build", &twins, vec![b(None), c(Some("a"))], b(None)));
     if tier == "thorough"
     {
         v.push(mk("chain3/fresh/build", &chain3, vec![], b(None)));
         v.push(mk("chain3/cleaned/build", &chain3, vec![b(None), c(None)], b(None)));
-        v.push(mk("chain3/built+edit/build", &chain3, vec![b(None), e("s", 1)], b(None)));
+        v.push(mk("five/fresh/build", &sc_five(), vec![], b(None)));
+        v.push(mk("five/cleaned/build", &sc_five(), vec![b(None), c(None)], b(None)));
+        v.push(mk("widefanin/cleaned/build", &sc_widefanin(), vec![b(None), c(None)], b(None)));
+        v.push(mk("triplets/reverted/build", &sc_triplets(), vec![b(None), e("s", 1), b(None), e("s", 0)], b(None)));
         v.push(mk("twins3/reverted/build", &twins3, vec![b(None), e("s", 1), b(None), e("s", 0)], b(None)));
         v.push(mk("twins3/fresh/build", &twins3, vec![], b(None)));
         v.push(mk("diamond/tampered/build", &diamond, vec![b(None), Op::Tamper { path: "l".into() }], b(None)));
@@ -616,6 +643,9 @@ pub fn failure_cases(tier: &str) -> Vec<SchedCase>
     // a command of several lines whose first line fails while the later ones succeed
     let ml = crate::scen::s12_multiline_failure();
     v.push(mk("fail/multiline/fresh/build", &ml, vec![], b(None)));
+    // a failing rule next to two rules racing for one cache entry
+    let tf = scn("twinsfail", vec![cat_rule("a", &["s"]), cat_rule("b", &["s"]), fail_rule("f", &["s"]), cat_rule("df", &["f", "a"])], &["s"]);
+    v.push(mk("fail/twins+failing-sibling/fresh/build", &tf, vec![], b(None)));
     // missing leaves in the healthy graph
     let healthy = sc_fail("false", &[]);
     v.push(mk("missing/s/fresh/build", &healthy, vec![Op::RmLeaf { path: "s".into() }], b(None)));
